@@ -1,5 +1,6 @@
 """Interprocedural view of the CLI's `main`: the inlined supergraph with the call sites the CLI rules
 talk about, independent of how `main` is split into helper functions, closures or methods."""
+import os
 import re
 
 from engine import AnchorLost
@@ -149,12 +150,13 @@ class CliView:
             tmpl = None
             dts = []
             if f["name"] == "write_fmt" and len(t["args"]) > 1:
-                tp = common.template_of_s(self.sup, n, t["args"][1])
-                if tp:
-                    tmpl = tp[1]
-                    ob = self.sup.body_of(tp[2])
-                    if len(tp[3]["args"]) > 1:
-                        dts = _display_types(ob, tp[3]["args"][1])
+                tmpl, dts = _expanded_template(self.sup, n, t["args"][1])
+            elif f["name"] in ("write_all", "write") and len(t["args"]) > 1:
+                # the bytes of a line assembled in a local array by a formatted write (`writeln!(&mut buf[..], ..)`
+                # followed by `stderr.write_all(&buf[..len])`): the line's template is that write's
+                got = _buffered_line_template(self.sup, n, b, t, self._states())
+                if got:
+                    tmpl, dts = got
             out.append((n, st, tmpl, dts))
         self._writes = out
         return out
@@ -306,6 +308,110 @@ class CliView:
             if "Result<" in ty or "ControlFlow<" in ty:
                 out.add((path, l))
         return out
+
+
+def _expanded_template(sup, node, args_op, depth=0):
+    """(template text, display types) of a fmt::Arguments operand; a placeholder whose argument is itself a
+    fmt::Arguments value (`writeln!(w, "{line}")` with `line: fmt::Arguments` built by the caller) is replaced by
+    that value's own template."""
+    tp = common.template_of_s(sup, node, args_op)
+    if not tp:
+        return None, []
+    text = tp[1]
+    onode, oterm = tp[2], tp[3]
+    dts = []
+    if tp[0] != "tmpl" or len(oterm["args"]) < 2:
+        return text, dts
+    ob = sup.body_of(onode)
+    tr = strace(sup, onode, oterm["args"][1])
+    subs = []
+    if tr.origin and tr.origin[0] == "agg":
+        abody = sup.body_of(tr.origin_node)
+        for o in tr.origin[1]["rv"]["ops"]:
+            t2 = strace(sup, tr.origin_node, o)
+            sub = None
+            if t2.origin and t2.origin[0] == "call":
+                af = fn_of(t2.origin[2])
+                if af and "Argument" in af["def"]:
+                    aty = af["args"][-1] if af["args"] else "?"
+                    if "dyn " in aty and t2.origin[2]["args"]:
+                        # a type-erased argument (`path: Option<&dyn Display>` of a bail helper): the concrete type it
+                        # was made from, where the caller coerces it
+                        t3 = strace(sup, (t2.origin_node[0], t2.origin[1]), t2.origin[2]["args"][0])
+                        froms = [s_[2] for s_ in t3.steps if s_[0] == "cast" and "Unsize" in str(s_[1])]
+                        if froms:
+                            aty = froms[-1]
+                    dts.append((af["name"], aty))
+                    if "fmt::Arguments" in aty and depth < 3 and t2.origin[2]["args"]:
+                        inner, idts = _expanded_template(sup, (t2.origin_node[0], t2.origin[1]), t2.origin[2]["args"][0], depth + 1)
+                        if inner is not None:
+                            sub = inner
+                            dts = dts[:-1] + idts
+            subs.append(sub)
+    if any(x is not None for x in subs):
+        parts = text.split("{}")
+        if len(parts) - 1 == len(subs):
+            out = parts[0]
+            for i, x in enumerate(subs):
+                out += (x if x is not None else "{}") + parts[i + 1]
+            text = out
+    return text, dts
+
+
+def _buffered_line_template(sup, node, body, t, feasible=None):
+    """For `w.write_all(&buf[..n])` with `buf` a local byte array that a formatted write filled beforehand in the
+    same body (through a `&mut [u8]` cursor over it): that formatted write's expanded template."""
+    import r_c04
+
+    data = trace(body, t["args"][1], passthrough_extra=("std::ops::Index::index",))
+    arr = None
+    for l in range(body.nargs + 1, len(body.raw["locals"])):
+        if re.match(r"^\[u8; \d+\]$", body.local_ty(l)):
+            # the data operand is a view of this array
+            tr = trace(body, t["args"][1], passthrough_extra=("std::ops::Index::index",))
+            if tr.origin and ((tr.origin[0] in ("rvalue", "agg", "multi") and _origin_local(tr) == l) or False):
+                arr = l
+    if arr is None:
+        return None
+    cands = []
+    for n2, b2, t2 in sup.calls():
+        if n2[0] != node[0] or b2 is not body:
+            continue
+        f2 = fn_of(t2) or {}
+        if f2.get("name") != "write_fmt" or f2.get("trait") != "std::io::Write" or len(t2["args"]) < 2:
+            continue
+        if "[u8]" not in (f2.get("self_ty") or ""):
+            continue
+        rt = trace(body, t2["args"][0], passthrough_extra=("std::ops::IndexMut::index_mut",))
+        if not (rt.origin and _origin_local(rt) == arr):
+            continue
+        if body.dominates(n2[1], node[1]):
+            return _expanded_template(sup, n2, t2["args"][1])
+        if node[1] in body.reachable_from(n2[1]):
+            cands.append((n2, t2))
+    # the line is formatted on one of several arms (`match path { Some(p) => writeln!(buf, "... in {p}: ..."),
+    # None => writeln!(buf, "...") }`): in this calling context only the arms that are feasible count
+    if feasible is not None:
+        cands = [(n2, t2) for n2, t2 in cands if n2 in feasible]
+    if len(cands) == 1:
+        return _expanded_template(sup, cands[0][0], cands[0][1]["args"][1])
+    if cands:
+        outs = [_expanded_template(sup, n2, t2["args"][1]) for n2, t2 in cands]
+        # several feasible arms: a common prefix is still known
+        texts = [o[0] for o in outs if o[0] is not None]
+        if len(texts) == len(outs):
+            pre = os.path.commonprefix(texts)
+            return pre, []
+    return None
+
+
+def _origin_local(tr):
+    o = tr.origin
+    if o[0] == "multi":
+        return o[1]
+    if o[0] in ("rvalue", "agg") and isinstance(o[1], dict) and "p" in o[1] and not o[1]["p"]["pr"]:
+        return o[1]["p"]["l"]
+    return None
 
 
 def _display_types(body, args_op):
